@@ -195,6 +195,8 @@ WorkerScenarios ==
     {[worker |-> "A", state |-> st, cap |-> c] : st \in {"opening", "reading", "partial", "flood"}, c \in {1}}
     \cup {[worker |-> "A", state |-> "sending", cap |-> c] : c \in {0, 1, 4, 64}}
     \cup {[worker |-> "A", state |-> "readingfull", cap |-> c] : c \in {1, 4}}
-    \cup {[worker |-> "S", state |-> st, cap |-> 0] : st \in {"opening", "reading", "partial", "sending", "flood"}}
+    \cup {[worker |-> "S", state |-> st, cap |-> 0] : st \in {"opening", "reading", "partial", "flood"}}
+    \* S blocked handing over a login: cap selects the login variant (password, key, certificate, padded key)
+    \cup {[worker |-> "S", state |-> "sending", cap |-> c] : c \in {0, 1, 2, 3}}
     \cup {[worker |-> "P", state |-> st, cap |-> c] : st \in {"idle", "busy", "loginpending"}, c \in {0, 4}}
 =============================================================================
